@@ -4,7 +4,7 @@
    it returns the previous values of what it touched. The map laws that make the association list
    a "plain sorted map" are stated first. *)
 Require Import Enr.Bytes Enr.Consts Enr.Rlp Enr.SortedMap Enr.Keccak Enr.Record Enr.Update Enr.Spec Enr.Toy.
-Require Import EnrProofs.SortedMapLemmas EnrProofs.ErrLemmas EnrProofs.RefineLemmas EnrProofs.Thm_Refine.
+Require Import EnrProofs.SortedMapLemmas EnrProofs.ErrLemmas EnrProofs.RefineLemmas EnrProofs.Thm_Refine EnrProofs.Thm_Cause.
 Open Scope N_scope.
 
 (* ---- the map model: lookup laws, sortedness, extensionality ---- *)
@@ -145,3 +145,42 @@ Example toy_refines :
   | _ => False
   end.
 Proof. vm_compute. repeat split. Qed.
+
+(* the error kind names the exact cause of THIS call (the message the signer refused, the candidate that is too large) *)
+Theorem step_err_exact_cause : forall (c : crypto) kt r o k sg e r',
+  step c kt r o k sg = (Err e, r') ->
+  match e with
+  | ESequenceNumberTooHigh => seq r = U64_MAX /\ is_set_seq o = false
+  | ESigningError => sg (to_sign r o k) = None
+  | EExceedsMaxSize =>
+      (is_set_seq o = false /\ pre_check o = true /\
+       MAX_ENR_SIZE < size (cand (seq r) (nid r) (spec_pairs o k (content r)) (sig r))) \/
+      (exists s, sg (to_sign r o k) = Some s /\ MAX_ENR_SIZE < size (result_with r o k s))
+  | EUnsupportedIdentityScheme =>
+      (exists v, In (k_id, v) (checked_inserts o) /\ check_reserved c k_id v = Err EUnsupportedIdentityScheme) \/
+      sm_get k_id (spec_pairs o k (content r)) <> Some (enc_string v4)
+  | _ =>
+      is_rlp_err e = true /\
+      ((exists kv, In kv (checked_inserts o) /\ check_reserved c (fst kv) (snd kv) = Err e) \/
+       check_keyed_by c kt (spec_pairs o k (content r)) k = Err e)
+  end.
+Proof. exact Thm_Cause.step_err_exact_cause. Qed.
+Print Assumptions step_err_exact_cause.
+
+Theorem step_illtyped_first : forall (c : crypto) kt r o k sg e,
+  check_list c (checked_inserts o) = Err e -> step c kt r o k sg = (Err e, r).
+Proof. exact Thm_Cause.step_illtyped_first. Qed.
+Print Assumptions step_illtyped_first.
+
+(* on every Valid record keyed by the signer, under the generic conditions of any update only *)
+Theorem set_public_key_own_valid : forall (c : crypto) kt r k sg s,
+  Valid c kt r ->
+  sm_get (pub_key_name k) (content r) = Some (pub_entry k) ->
+  check_keyed_by c kt (content r) k = Ok tt ->
+  check_reserved c (pub_key_name k) (pub_entry k) = Ok tt ->
+  seq r <> U64_MAX ->
+  sg (signed_payload_of (seq r + 1) (content r)) = Some s ->
+  size (cand (seq r + 1) (node_id_of (sk_pub k)) (content r) s) <= MAX_ENR_SIZE ->
+  step c kt r (OSetPublicKey (sk_pub k)) k sg = (Ok RUnit, cand (seq r + 1) (node_id_of (sk_pub k)) (content r) s).
+Proof. exact Thm_Cause.set_public_key_own_valid. Qed.
+Print Assumptions set_public_key_own_valid.
